@@ -572,7 +572,7 @@ func indexes(c *harness.Ctx) {
 	rng := c.Rng
 	dir := c.CaseDir()
 	idx := dsu.RefIndex(dsu.MakeBlob(rng, "random", 1000+rng.Intn(20000), dsu.Sizes{Min: 64, Avg: 128, Max: 256}), dsu.Sizes{Min: 64, Avg: 128, Max: 256})
-	shape := []string{"handler", "proxy", "cli"}[rng.Intn(3)]
+	shape := []string{"handler", "proxy", "cli", "s3-upstream", "sftp-upstream"}[rng.Intn(5)]
 	c.Info("indexes shape=%s chunks=%d", shape, len(idx.Chunks))
 	c.LogInfo()
 	os.MkdirAll(filepath.Join(dir, "idx"), 0755)
@@ -591,6 +591,29 @@ func indexes(c *harness.Ctx) {
 		srv2 := httptest.NewServer(desync.NewHTTPIndexHandler(upstream, true, ""))
 		defer srv2.Close()
 		base = srv2.URL
+	case "s3-upstream":
+		// index server in front of an S3 index store
+		f := fakes.NewS3("bucket")
+		defer f.Close()
+		up, err := desync.NewS3IndexStore(f.URL("indexes"), fakes.Creds(), fakes.Region, desync.StoreOptions{ErrorRetry: 0}, fakes.Lookup)
+		dsu.Must(err)
+		srv := httptest.NewServer(desync.NewHTTPIndexHandler(up, true, ""))
+		defer srv.Close()
+		base = srv.URL
+	case "sftp-upstream":
+		os.Setenv("CASYNC_SSH_PATH", shim)
+		os.Setenv("SHIM_SFTP_FAULT", "none@0")
+		defer os.Unsetenv("SHIM_SFTP_FAULT")
+		us, _ := url.Parse("sftp://localhost" + filepath.Join(dir, "idx"))
+		up, err := desync.NewSFTPIndexStore(us, desync.StoreOptions{N: 1})
+		if err != nil {
+			c.Skip("sftp shim: %v", err)
+			return
+		}
+		defer up.Close()
+		srv := httptest.NewServer(desync.NewHTTPIndexHandler(up, true, ""))
+		defer srv.Close()
+		base = srv.URL
 	case "cli":
 		addr, cmd, err := dsu.StartServerCmd(func(addr string) *exec.Cmd {
 			cmd := exec.Command(cli, "index-server", "-w", "-s", filepath.Join(dir, "idx"), "-l", addr)
@@ -649,7 +672,7 @@ func indexes(c *harness.Ctx) {
 	}
 	// an index server in front of an upstream that FAILS (500 / 403 on everything): neither GET nor HEAD may call
 	// that "missing"
-	if shape != "cli" {
+	if shape == "handler" || shape == "proxy" {
 		code := []int{500, 403, 503}[rng.Intn(3)]
 		bad := httptest.NewServer(http.HandlerFunc(func(w http.ResponseWriter, r *http.Request) { http.Error(w, "upstream trouble", code) }))
 		defer bad.Close()
